@@ -28,22 +28,39 @@ pub fn constants(
     for location in constants.keys() {
         let rfl = location.function_location().apply(function).unwrap();
         let rpl = il::RefProgramLocation::new(function, rfl);
-        result.insert(
-            location.clone(),
-            rpl.backward()?
-                .into_iter()
-                // a predecessor that is unreachable from the entry has no state
-                // (it never executes) and does not contribute
-                .fold(Constants::new(), |c, location| {
-                    match constants.get(&location.into()) {
-                        Some(predecessor) => c.join(predecessor),
-                        None => c,
-                    }
-                }),
-        );
+        // a predecessor that is unreachable from the entry has no state
+        // (it never executes) and does not contribute
+        let mut state: Option<Constants> = None;
+        for predecessor in rpl.backward()? {
+            if let Some(predecessor) = constants.get(&predecessor.into()) {
+                state = Some(match state {
+                    Some(state) => state.join(predecessor),
+                    None => predecessor.clone(),
+                });
+            }
+        }
+        let mut state = state.unwrap_or_else(Constants::new);
+        if is_entry(&rpl) {
+            state.top();
+        }
+        result.insert(location.clone(), state);
     }
 
     Ok(result)
+}
+
+/// Is this the location at which the function is entered?
+///
+/// Nothing is known about the scalars when a function is entered, so whatever
+/// flows back to this location along a loop is joined with, "Nothing known."
+fn is_entry(location: &il::RefProgramLocation) -> bool {
+    match il::RefProgramLocation::from_function(location.function()) {
+        Some(Ok(entry)) => {
+            il::FunctionLocation::from(entry.function_location().clone())
+                == il::FunctionLocation::from(location.function_location().clone())
+        }
+        _ => false,
+    }
 }
 
 #[allow(dead_code)] // Bottom is never used
@@ -186,16 +203,20 @@ impl Constants {
         eval(&expression).ok()
     }
 
+    /// A scalar which is missing from a state has not been assigned on the
+    /// paths this state stands for, and holds whatever value it had when the
+    /// function was entered. It is only a constant after the join if both sides
+    /// agree on its value.
     fn join(self, other: &Constants) -> Constants {
-        let mut result = self.clone();
-        for (scalar, constant) in other.constants.iter() {
-            match self.constants.get(scalar) {
-                Some(c) => {
-                    if c != constant {
-                        result.set_scalar(scalar.clone(), Constant::Top);
-                    }
-                }
-                None => result.set_scalar(scalar.clone(), constant.clone()),
+        let mut result = self;
+        for (scalar, constant) in result.constants.iter_mut() {
+            if other.constants.get(scalar) != Some(&*constant) {
+                *constant = Constant::Top;
+            }
+        }
+        for scalar in other.constants.keys() {
+            if !result.constants.contains_key(scalar) {
+                result.set_scalar(scalar.clone(), Constant::Top);
             }
         }
         result
@@ -215,6 +236,10 @@ impl<'r> fixed_point::FixedPointAnalysis<'r, Constants> for ConstantsAnalysis {
             Some(state) => state,
             None => Constants::new(),
         };
+
+        if is_entry(&location) {
+            state.top();
+        }
 
         let state = match location.instruction() {
             Some(instruction) => match *instruction.operation() {
